@@ -9,7 +9,13 @@ with the independent reference semantics `mc.refsem`:
   boundary set squared for f32 / f64, every cmpi / cmpf predicate;
 * all 2-op chains over the registered integer binary ops (+ cmpi after an op, cmpi after cmpi against a
   constant) on i3 (all inputs) and i8 (boundary cube), run as real `func.func`s through `call_op`;
-* small scf / cf / func programs (for-sum, if, while, cond_br diamond, cf loop, calls with an effect log)
+* a HISTORY dimension: every ordered pair (and three triples) of interpreter configurations index_bitwidth in
+  {32, 64}: fresh Interpreter objects created one after the other in ONE process (each sequence in its own freshly
+  forked worker), each running every registered arith op that involves `index` on the boundary values and
+  compared with refsem at ITS OWN index width; a failure that only appears after another configuration ran gets
+  the suffix @index_bitwidth=<w>-after-<earlier widths>;
+* small scf / cf / func programs (for-sum, if, while, cond_br diamond, cond_br / switch whose successors are the SAME block with
+  different or equal operand lists, cf loops, calls with an effect log)
   on all small inputs.  Programs that use an op with no registered implementation are skipped and
   listed (an unimplemented op is "uncovered", not a wrong result).
 
@@ -378,7 +384,8 @@ def build_op(name: str, varg, in_types, target):
     return cls(*vals)
 
 
-def run_one(st: Stats, interp, mach, op, variant: str, py_args: tuple, ref_args: list, wit: dict, sample: bool) -> None:
+def run_one(st: Stats, interp, mach, op, variant: str, py_args: tuple, ref_args: list, wit: dict, sample: bool,
+            sig_suffix: str = "") -> None:
     mach.ambiguous = None
     try:
         ref = mach.eval_op(op, ref_args)
@@ -406,7 +413,7 @@ def run_one(st: Stats, interp, mach, op, variant: str, py_args: tuple, ref_args:
         st.outcomes[f"{op.name}:agrees"] += 1
         return
     st.outcomes[f"{op.name}:{bad[0].split('|')[0]}"] += 1
-    sig = f"C15|{op.name}|{variant}|{bad[0]}{operand_form(op, py_args)}"
+    sig = f"C15|{op.name}|{variant}|{bad[0]}{operand_form(op, py_args)}{sig_suffix}"
     if sig in st.violations:
         st.violations[sig]["count"] += 1
         return
@@ -438,7 +445,7 @@ def _single(task) -> Stats:
     return st
 
 
-def _const(st: Stats, interp, mach, target: str, exh: int, big: bool, seed: int, wit: dict) -> None:
+def _const(st: Stats, interp, mach, target: str, exh: int, big: bool, seed: int, wit: dict, sig_suffix: str = "") -> None:
     x = X()
     t = x["ty"](target)
     if target in R.FLOAT_FORMATS:
@@ -460,7 +467,86 @@ def _const(st: Stats, interp, mach, target: str, exh: int, big: bool, seed: int,
             st.bump("constant_attr_rejected")
             continue
         st.states += 1
-        run_one(st, interp, mach, op, "-", (), [], {**wit, "value": py_json(v)}, False)
+        run_one(st, interp, mach, op, "-", (), [], {**wit, "value": py_json(v)}, False, sig_suffix)
+
+
+# ======================================================================================
+# history dimension: interpreters with different index_bitwidth created one after the other in ONE process
+# ======================================================================================
+HIST_SEQS = ((32, 32), (32, 64), (64, 32), (64, 64), (32, 64, 32), (64, 32, 64), (64, 64, 32))
+_HSEP = "##"
+
+
+def index_plans(exh: int) -> list[tuple]:
+    """every (op, variant argument, operand types, target) of a registered arith impl that involves `index`"""
+    out = []
+    for name in sorted(X()["impls"]["ArithFunctions"]):
+        for varg, in_types, target in plan(name, exh) or ():
+            if "index" in in_types or target == "index":
+                out.append((name, varg, tuple(in_types), target))
+    return out
+
+
+def _history(task) -> Stats:
+    """one sequence of interpreter configurations, run in a process that has not interpreted anything yet (the
+    task runs in its own freshly forked worker).  Step k creates a NEW Interpreter(index_bitwidth=seq[k]) and runs
+    the whole index op set on the boundary values, compared with refsem at index width seq[k].  Violations are
+    returned under provisional keys  <plain sig>##<step>##<width>##<earlier widths>  and classified by run()."""
+    global INDEX_W
+    _, seq, exh, big, seed = task
+    x = X()
+    st = Stats()
+    saved = INDEX_W
+    try:
+        for k, w in enumerate(seq):
+            INDEX_W = w  # twidth / feed / judge_values / new_interp all read the module global
+            interp = x["new_interp"]()
+            mach = R.Machine(index_width=w)
+            suffix = f"{_HSEP}{k}{_HSEP}{w}{_HSEP}{'-'.join(map(str, seq[:k]))}"
+            for name, varg, in_types, target in index_plans(exh):
+                wit = {"kind": "history", "seq": list(seq), "step": k, "index_bitwidth": w, "op": name, "varg": varg,
+                       "in_types": list(in_types), "target": target, "exh": exh, "big": big}
+                if CATEGORY[name] == "const":
+                    _const(st, interp, mach, target, exh, big, seed, wit, suffix)
+                    continue
+                op = build_op(name, varg, in_types, target)
+                variant = variant_of(op)
+                for combo in itertools.product(*[feed(t, exh, big) for t in in_types]):
+                    st.states += 1
+                    run_one(st, interp, mach, op, variant, tuple(c[0] for c in combo), [c[1] for c in combo], wit, False, suffix)
+            st.outcomes[f"history:index_bitwidth={w}-after-{'-'.join(map(str, seq[:k])) or 'nothing'}"] += 1
+    finally:
+        INDEX_W = saved
+    return st
+
+
+def classify_history(stats_list: list[Stats]) -> None:
+    """rewrite the provisional keys: a failure at a later step that also occurs for the same index width in a
+    fresh process (step 0 of a sequence starting with that width) is the ordinary finding; otherwise the result
+    depends on the interpreters created earlier -> signature suffix @index_bitwidth=<w>-after-<earlier widths>"""
+    fresh: dict[int, set] = {}
+    for st in stats_list:
+        for key in st.violations:
+            plain, k, w, _ = key.split(_HSEP)
+            if k == "0":
+                fresh.setdefault(int(w), set()).add(plain)
+    for st in stats_list:
+        new: dict = {}
+        for key in sorted(st.violations):
+            v = st.violations[key]
+            plain, k, w, prev = key.split(_HSEP)
+            if k == "0" or plain in fresh.get(int(w), ()):
+                sig = plain
+            else:  # one signature per (op, variant, direction): the failure kind is incidental here
+                others = "-".join(sorted(set(prev.split("-")) - {w})) or w
+                sig = "|".join(plain.split("|")[:3]) + f"|depends-on-earlier-interpreter@index_bitwidth={w}-after-{others}"
+            if sig != plain:
+                v = dict(v, what=v["what"] + f" -- only after interpreters with index_bitwidth {prev} ran in the same process")
+            if sig in new:
+                new[sig]["count"] += v["count"]
+            else:
+                new[sig] = v
+        st.violations = new
 
 
 # ======================================================================================
@@ -547,8 +633,22 @@ def _blame_divergence(xs: list, rs: list, k: int):
     return xo, "control-flow-divergence"
 
 
-def _block_arg_owner(op, xs: list, k: int):
-    """an operand that is a block argument carries a wrong value: blame whoever passed it"""
+def _block_arg_owner(op, xs: list, k: int, xa=None, ra=None):
+    """an operand that is a block argument carries a wrong value: blame whoever passed it, i.e. the most recently
+    executed terminator that branched to the argument's block (the parent op for a region entry block)"""
+    bad_val = None
+    if xa is not None:
+        for o, g, r in zip(op.operands, xa, ra):
+            if judge_values([o.type], (g,), [r]) is not None:
+                bad_val = o
+                break
+    block = getattr(bad_val, "block", None) if bad_val is not None and not hasattr(bad_val, "op") else None
+    if block is not None:
+        for j in range(k - 1, -1, -1):
+            t = xs[j][0]
+            if t.successors and any(b is block for b in t.successors):
+                return t
+        return block.parent_op() or op
     prev = xs[k - 1][0] if k > 0 else None
     if prev is not None and prev.successors:
         return prev
@@ -604,7 +704,7 @@ def exec_program(st: Stats, P: Prog, py_args: tuple, label: str, sample: bool = 
         st.evaluations += 1
         j = judge_values([o.type for o in xo.operands], xa, ra)
         if j is not None and j[0] != "out-of-range":
-            b = _block_arg_owner(xo, xs, k)
+            b = _block_arg_owner(xo, xs, k, xa, ra)
             bad = (b.name, variant_of(b), "wrong-values-passed", f"operands of the following {xo.name}: {j[1]}")
             break
         if not xo.results:
@@ -877,6 +977,52 @@ def cf_programs(big: bool) -> list[tuple[str, str, list]]:
     func.return %r, %s : i8, i8
   }}
 }}""", [i8s, [0, -1, 3, -128, 127]]))
+    for what, second in (("different-operands", "%b"), ("same-operands", "%a")):
+        out.append((f"cf.cond_br-same-successor-{what}", f"""builtin.module {{
+  func.func @f(%c: i1, %a: i8, %b: i8) -> i8 {{
+    cf.cond_br %c, ^m(%a : i8), ^m({second} : i8)
+  ^m(%r: i8):
+    func.return %r : i8
+  }}
+}}""", [[0, -1], i8s, i8s]))
+    out.append(("cf.cond_br-same-successor-computed-condition", """builtin.module {
+  func.func @f(%a: i8, %b: i8) -> (i8, i8) {
+    %c = arith.cmpi slt, %a, %b : i8
+    %d = arith.subi %a, %b : i8
+    cf.cond_br %c, ^m(%a, %d : i8, i8), ^m(%d, %b : i8, i8)
+  ^m(%r: i8, %s: i8):
+    func.return %r, %s : i8, i8
+  }
+}""", [i8s, i8s]))
+    out.append(("cf.cond_br-self-loop-same-successor", """builtin.module {
+  func.func @f(%n: i8) -> (i8, i8) {
+    %c0 = arith.constant 0 : i8
+    %c1 = arith.constant 1 : i8
+    cf.br ^h(%n, %c0 : i8, i8)
+  ^h(%x: i8, %k: i8):
+    %x1 = arith.subi %x, %c1 : i8
+    %k1 = arith.addi %k, %c1 : i8
+    %c = arith.cmpi sgt, %x1, %c0 : i8
+    cf.cond_br %c, ^t(%x1, %k1 : i8, i8), ^t(%c0, %x1 : i8, i8)
+  ^t(%y: i8, %j: i8):
+    %z = arith.cmpi sgt, %y, %c0 : i8
+    cf.cond_br %z, ^h(%y, %j : i8, i8), ^e
+  ^e:
+    func.return %y, %j : i8, i8
+  }
+}""", [[-128, -1, 0, 1, 2, 3, 9, 127]]))
+    out.append(("cf.switch-duplicate-targets", """builtin.module {
+  func.func @f(%a: i8, %b: i8) -> i8 {
+    cf.switch %a : i8, [
+      default: ^m(%a : i8),
+      0: ^m(%b : i8),
+      1: ^m(%a : i8),
+      -1: ^m(%b : i8)
+    ]
+  ^m(%r: i8):
+    func.return %r : i8
+  }
+}""", [i8s, i8s]))
     out.append(("cf.switch", """builtin.module {
   func.func @f(%a: i8) -> i8 {
     %c7 = arith.constant 7 : i8
@@ -972,7 +1118,7 @@ def _cfprog(task) -> Stats:
 # run / replay
 # ======================================================================================
 def _task(task) -> Stats:
-    return {"single": _single, "chains": _chains, "cfprog": _cfprog}[task[0]](task)
+    return {"single": _single, "chains": _chains, "cfprog": _cfprog, "history": _history}[task[0]](task)
 
 
 def run(ctx):
@@ -1009,6 +1155,13 @@ def run(ctx):
     for cls_name in ("ScfFunctions", "CfFunctions", "FuncFunctions"):
         for name in sorted(x["impls"][cls_name]):
             (covered if name in used else uncovered).append(name)
+    # history dimension first: every sequence in its own freshly forked worker (procs = number of sequences, so no
+    # worker runs two sequences and none has interpreted anything before); this parent never interprets anything.
+    hist_tasks = [("history", seq, exh, big, ctx.seed) for seq in HIST_SEQS]
+    hist = [st for _, st in pmap(_task, hist_tasks, procs=len(hist_tasks))]
+    classify_history(hist)
+    for st in hist:
+        ctx.merge(st)
     for _, st in pmap(_task, tasks):
         ctx.merge(st)
     for name in uncovered:
@@ -1028,6 +1181,8 @@ def run(ctx):
         "chain_programs_per_type": len(chain_specs("i3")),
         "control_flow_programs": nprog,
         "index_width": INDEX_W,
+        "index_bitwidth_histories": [list(q) for q in HIST_SEQS],
+        "index_ops_per_history_step": len(index_plans(exh)),
     }
     ctx.rule = ("single ops: every registered ArithFunctions impl x every operand tuple of the narrow widths / boundary "
                 "tuples of the wide ones / float boundary pairs; programs: every 2-op chain and each control-flow program "
@@ -1043,6 +1198,11 @@ def run(ctx):
 def replay(rep) -> bool:
     w = rep["witness"]
     st = Stats()
+    if w["kind"] == "history":
+        # the replay process has not interpreted anything yet: re-run the recorded sequence of configurations
+        st = _history(("history", tuple(w["seq"]), w["exh"], w["big"], 0))
+        head = "|".join(rep["signature"].split("|")[:3]) + "|"
+        return not any(k.startswith(head) and k.split(_HSEP)[1] == str(w["step"]) for k in st.violations)
     if w["kind"] == "single":
         x = X()
         interp = x["new_interp"]()
